@@ -1,6 +1,8 @@
 """C03  The result is a well-formed tree over the input with in-bounds spans."""
 from __future__ import annotations
 
+import itertools
+
 from mdmc import core, monitors, trees
 from mdmc.engines import hitx, streams
 from mdmc.props import _engineprop as ep
@@ -28,13 +30,30 @@ def describe(tier):
     return {
         "rule": ep.RULE_PREFIX + "Oracle on EVERY node of EVERY tree: root = ('', input, '', 0, len(input), no parent); each node listed "
         "exactly once (identity) by the node its parent pointer names; list(root) equals the identity pre-order walk; 0<=start<=end<=len(parent.value). "
-        "Dedicated sub-structure families (scan level): the encoded/plain PowerShell grammar of C16, the URL grammars and Windows path grammar of C12, xor "
+        "Long texts (300 bytes to 70/140/300 kB) with every list of <= 2 (3) hits over 7 scaled positions x 4 kinds. Dedicated sub-structure families (scan level): the encoded/plain PowerShell grammar of C16, the URL grammars and Windows path grammar of C12, xor "
         "carriers x keys, valid and truncated PE images. "
         "Non-trivial = a tree with at least one node two levels below the root or with decoder-supplied sub-structure (distinct by shape).",
         "bounds": BOUNDS[tier],
         "assumptions": ["scans that raise or hang are counted and left to C01", "fixture keyword directory instead of the 5316 shipped keywords"],
         "exhaustive": True,
     }
+
+
+# ---- long texts: hit lengths and offsets far beyond the small-scope texts (64 KiB boundaries) -------------------------
+LONG_N = {"quick": (300, 70001), "thorough": (300, 70001, 140003, 300007)}
+LONG_KINDS = ("p", "q", "d1", "dL")
+
+
+def long_text(n):
+    return bytes(97 + (i * 7 + i // 251) % 26 for i in range(n))
+
+
+def long_configs(n, kmax):
+    pos = [0, 1, 6, n // 2, n - 7, n - 1, n]
+    ivs = [(a, b) for i, a in enumerate(pos) for b in pos[i + 1:]]
+    cands = [(a, b, k) for (a, b) in ivs for k in LONG_KINDS]
+    for k in range(1, kmax + 1):
+        yield from itertools.product(cands, repeat=k)
 
 
 SUB = ["ps-enc", "ps-plain", "urlA", "urlB", "win", "xor", "pe"]
@@ -45,6 +64,9 @@ def plan(tier, seed):
     for kind in SUB:
         for part in range(8):
             units.append((tier, "sub", kind, part))
+    for n in LONG_N[tier]:
+        for part in range(16):
+            units.append((tier, "long", n, part))
     return units
 
 
@@ -151,7 +173,31 @@ def on_case(rec, case):
     _mark(rec, case.tree, nodes, case.log, case.data)
 
 
+def run_long(rec, tier, n, part):
+    T = long_text(n)
+    kmax = 2 if (tier == "quick" or n > 150000) else 3
+    last = ()
+    for i, hits in enumerate(long_configs(n, kmax)):
+        if i % 16 != part:
+            continue
+        w = {"engine": "hitx-long", "n": n, "hits": [list(h) for h in hits], "depth": 2}
+        rec.count("evaluations")
+        rec.mark("states", 0, True)
+        ok, run = rec.guard(TOTAL, w, n // 1000 + len(hits), hitx.execute, T, hits, 2, "r0", False)
+        if ok:
+            rec.count("traces")
+            rec.count("transitions", run.trace.transitions)
+            nodes = monitors.c03(rec, run.impl, T, run.log, w, n // 1000 + len(hits))
+            if any(x.parent is not run.impl for x in nodes):
+                rec.mark("nontrivial", 0, True)
+            last = hits
+    rec.sample({"engine": "hitx-long", "text_length": n, "part": part, "last_configuration": [list(h) for h in last]})
+
+
 def run_unit(unit, rec):
+    if unit[1] == "long":
+        run_long(rec, unit[0], unit[2], unit[3])
+        return
     if unit[1] == "sub":
         run_sub(rec, unit[0], unit[2], unit[3])
         return
@@ -159,4 +205,11 @@ def run_unit(unit, rec):
 
 
 def replay(w, rec):
+    if w.get("engine") == "hitx-long":
+        T = long_text(w["n"])
+        hits = tuple(tuple(h) for h in w["hits"])
+        ok, run = rec.guard(TOTAL, w, 0, hitx.execute, T, hits, 2, "r0", False)
+        if ok:
+            monitors.c03(rec, run.impl, T, run.log, w, 0)
+        return
     ep.replay(w, rec, TOTAL, on_run, on_case)
